@@ -8,6 +8,7 @@
 //@ gsubst `Infallible` => `VxInfallible` :: R11 stub type (opaque error value)
 //@ gsubst `std::io::SeekFrom` => `SeekFrom` :: R11 stub enum for std::io::SeekFrom (same variants)
 //@ gsubst `merklehash::compute_data_hash` => `compute_data_hash` :: R11 stub for the merklehash dependency (uninterpreted chunk hash)
+//@ gsubst `u32::from_le_bytes` => `vx_u32_from_le_bytes` :: R11 stub for std u32::from_le_bytes (anonymous-const array type cannot be named in assume_specification; value unconstrained)
 //@ gsubst `DataHash` => `MerkleHash` :: `merklehash::MerkleHash` is an alias of `DataHash` (merklehash/src/lib.rs:49)
 #![allow(non_snake_case, unused)]
 use vstd::prelude::*;
@@ -77,7 +78,16 @@ pub trait Read {
     spec fn pos(&self) -> nat;
     // number of bytes consumed through this handle so far (what a countio::Counter wrapped around it reports)
     spec fn nread(&self) -> nat;
+    // upper bound of nread: the bytes that were left in the underlying stream when counting started (nobody reads more than there is)
+    spec fn navail(&self) -> nat;
+    // std::io::Read::read_exact: fills the buffer from the current position or fails
+    fn read_exact(&mut self, buf: &mut [u8]) -> (r: Result<(), IoError>)
+        ensures
+            final(self).bytes() == old(self).bytes(), final(buf)@.len() == old(buf)@.len(),
+            r is Ok ==> old(self).pos() + old(buf)@.len() <= old(self).bytes().len() && final(self).pos() == old(self).pos() + old(buf)@.len();
 }
+#[verifier::external_body]
+fn vx_u32_from_le_bytes(b: [u8; 4]) -> (r: u32) { u32::from_le_bytes(b) }
 pub trait Seek: Read {
     // std::io::Seek::seek: the new position is returned; content never changes; on error the position is unspecified
     fn seek(&mut self, p: SeekFrom) -> (r: Result<u64, IoError>)
@@ -119,38 +129,23 @@ pub fn deserialize_chunk<R: Read>(reader: &mut R) -> (r: Result<(Vec<u8>, usize,
         },
 { unimplemented!() }
 
-// ---- footer parser stub (CasObject::deserialize) ------------------------------------------------------------------------------
-pub uninterp spec fn spec_footer(bytes: Seq<u8>) -> Option<CasObject>;
 spec fn footer_tables_ok(cas: CasObject) -> bool {
     &&& cas.info.chunk_hashes@.len() == cas.info.num_chunks
     &&& cas.info.chunk_boundary_offsets@.len() == cas.info.num_chunks
     &&& (cas.info.boundaries_version == CAS_OBJECT_FORMAT_BOUNDARIES_VERSION ==> cas.info.unpacked_chunk_offsets@.len() == cas.info.num_chunks)
 }
-impl CasObject {
-    #[verifier::external_body]
-    fn deserialize<R: Read + Seek>(reader: &mut R) -> (r: Result<CasObject, CasObjectError>)
-        ensures
-            final(reader).bytes() == old(reader).bytes(),
-            r matches Ok(cas) ==> {
-                &&& spec_footer(old(reader).bytes()) == Some(cas)
-                // `CasObjectInfoV1::deserialize` (under contract below: info_tables_ok, info_wire_ok) produces `info`, which is passed through unchanged
-                &&& footer_tables_ok(cas) && info_wire_ok(cas.info)
-                // `seek(End(-(4 + info_length)))` succeeded
-                &&& cas.info_length + 4 <= old(reader).bytes().len()
-                // exactly info_length bytes were then parsed (`total_bytes_read != info_length` is an error), at least ident + version
-                &&& final(reader).pos() == old(reader).bytes().len() - 4 && cas.info_length >= 8
-            },
-    { unimplemented!() }
-}
-
 
 // ==== the footer parser CasObjectInfoV1::deserialize under contract: table lengths, arithmetic, bounded preallocation =========
 // countio::Counter around the reader: only the running byte count is modelled (the parsed values are unconstrained, i.e. the
 // proof holds for every byte string)
-pub struct Counter { pub ghost n: nat }
+pub struct Counter { pub ghost n: nat, pub ghost avail: nat }
 impl Counter {
     #[verifier::external_body]
-    fn new<R: Read>(r: &mut R) -> (c: Counter) ensures c.n == 0, final(r).bytes() == old(r).bytes() { unimplemented!() }
+    fn new<R: Read>(r: &mut R) -> (c: Counter)
+        ensures c.n == 0, final(r).bytes() == old(r).bytes(),
+            // at most the bytes from the reader's position to its end can ever be counted
+            c.avail == (if old(r).pos() <= old(r).bytes().len() { old(r).bytes().len() - old(r).pos() } else { 0 }),
+    { unimplemented!() }
     #[verifier::external_body]
     fn reader_bytes(&self) -> (r: usize) requires self.n <= usize::MAX ensures r == self.n { unimplemented!() }
 }
@@ -158,21 +153,33 @@ impl Read for Counter {
     closed spec fn bytes(&self) -> Seq<u8> { Seq::empty() }
     closed spec fn pos(&self) -> nat { 0 }
     open spec fn nread(&self) -> nat { self.n }
+    open spec fn navail(&self) -> nat { self.avail }
+    #[verifier::external_body]
+    fn read_exact(&mut self, buf: &mut [u8]) -> (r: Result<(), IoError>) { unimplemented!() }
 }
 // utils::serialization_utils read helpers: Ok ==> exactly that many bytes were consumed
 #[verifier::external_body]
 fn read_bytes<R: Read>(reader: &mut R, val: &mut [u8]) -> (r: Result<(), IoError>)
-    ensures final(val)@.len() == old(val)@.len(), r is Ok ==> final(reader).nread() == old(reader).nread() + old(val)@.len() { unimplemented!() }
+    ensures final(val)@.len() == old(val)@.len(), final(reader).navail() == old(reader).navail(),
+        r is Ok ==> final(reader).nread() == old(reader).nread() + old(val)@.len() && final(reader).nread() <= final(reader).navail() { unimplemented!() }
 #[verifier::external_body]
 fn read_u8<R: Read>(reader: &mut R) -> (r: Result<u8, IoError>)
-    ensures r is Ok ==> final(reader).nread() == old(reader).nread() + 1 { unimplemented!() }
+    ensures final(reader).navail() == old(reader).navail(), r is Ok ==> final(reader).nread() == old(reader).nread() + 1 && final(reader).nread() <= final(reader).navail() { unimplemented!() }
 #[verifier::external_body]
 fn read_u32<R: Read>(reader: &mut R) -> (r: Result<u32, IoError>)
-    ensures r is Ok ==> final(reader).nread() == old(reader).nread() + 4 { unimplemented!() }
+    ensures final(reader).navail() == old(reader).navail(), r is Ok ==> final(reader).nread() == old(reader).nread() + 4 && final(reader).nread() <= final(reader).navail() { unimplemented!() }
 #[verifier::external_body]
 fn read_hash<R: Read>(reader: &mut R) -> (r: Result<MerkleHash, IoError>)
-    ensures r is Ok ==> final(reader).nread() == old(reader).nread() + 32 { unimplemented!() }
+    ensures final(reader).navail() == old(reader).navail(), r is Ok ==> final(reader).nread() == old(reader).nread() + 32 && final(reader).nread() <= final(reader).navail() { unimplemented!() }
 
+// footer geometry (same definitions as in U-XORBIDX)
+pub open spec fn hash_section_len(nh: nat) -> nat { 7 + 1 + 4 + 32 * nh }
+pub open spec fn boundary_section_len(nb: nat, nu: nat) -> nat { 7 + 1 + 4 + 4 * nb + 4 * nu + 4 + 4 + 4 + 16 }
+// the two section offsets stored in the footer equal what the serialized layout implies for the current table lengths (U-XORBIDX: offsets_filled)
+spec fn info_offsets_filled(s: CasObjectInfoV1) -> bool {
+    &&& s.boundary_section_offset_from_end == boundary_section_len(s.chunk_boundary_offsets@.len(), s.unpacked_chunk_offsets@.len())
+    &&& s.hashes_section_offset_from_end == hash_section_len(s.chunk_hashes@.len()) + boundary_section_len(s.chunk_boundary_offsets@.len(), s.unpacked_chunk_offsets@.len())
+}
 spec fn info_tables_ok(s: CasObjectInfoV1) -> bool {
     &&& s.chunk_hashes@.len() == s.num_chunks
     &&& s.chunk_boundary_offsets@.len() == s.num_chunks
@@ -200,7 +207,8 @@ impl CasObjectInfoV0 {
     // the v0 parser (closure-based byte counting; not under contract): pushes num_chunks entries into both tables; consumes 52 + 36*num_chunks bytes
     #[verifier::external_body]
     fn deserialize_v0<R: Read>(reader: &mut R) -> (r: Result<(Self, u32), CasObjectError>)
-        ensures r matches Ok((s, _)) ==> info_v0_tables_ok(s) && final(reader).nread() == old(reader).nread() + 52 + 36 * s.num_chunks
+        ensures final(reader).navail() == old(reader).navail(),
+            r matches Ok((s, _)) ==> info_v0_tables_ok(s) && final(reader).nread() == old(reader).nread() + 52 + 36 * s.num_chunks && final(reader).nread() <= final(reader).navail()
             // (the struct is built with `ident: CAS_OBJECT_FORMAT_IDENT`, cas_object_format.rs:197)
             && s.ident == CAS_OBJECT_FORMAT_IDENT
     { unimplemented!() }
@@ -226,8 +234,10 @@ impl CasObjectInfoV1 {
     fn default() -> (r: Self) ensures r.chunk_hashes@.len() == 0, r.chunk_boundary_offsets@.len() == 0, r.unpacked_chunk_offsets@.len() == 0 { unimplemented!() }
     // from_v0 moves the two v0 tables, leaves the unpacked table empty and marks that with boundaries_version 0 (cas_object_format.rs:786-807)
     #[verifier::external_body]
+    // (from_v0 is under contract in U-XORBIDX with exactly this precondition and `offsets_filled`)
     fn from_v0(src: CasObjectInfoV0) -> (r: Self)
-        ensures r.chunk_hashes@ == src.chunk_hashes@, r.chunk_boundary_offsets@ == src.chunk_boundary_offsets@, r.num_chunks == src.num_chunks,
+        requires hash_section_len(src.chunk_hashes@.len()) + boundary_section_len(src.chunk_boundary_offsets@.len(), 0) <= u32::MAX
+        ensures info_offsets_filled(r), r.chunk_hashes@ == src.chunk_hashes@, r.chunk_boundary_offsets@ == src.chunk_boundary_offsets@, r.num_chunks == src.num_chunks,
             r.unpacked_chunk_offsets@.len() == 0, r.boundaries_version == CAS_OBJECT_FORMAT_BOUNDARIES_VERSION_NO_UNPACKED_INFO,
             // (struct literal of from_v0: ident copied, the other ident/version fields are the constants)
             r.ident == src.ident, r.version == CAS_OBJECT_FORMAT_VERSION, r.ident_hash_section == CAS_OBJECT_FORMAT_IDENT_HASHES,
@@ -242,8 +252,15 @@ impl CasObjectInfoV1 {
 //@ subst `s.chunk_boundary_offsets.reserve(` => `vx_reserve(&mut s.chunk_boundary_offsets, ` :: R11 stub for Vec::reserve carrying the allocation cap as precondition
 //@ subst `s.unpacked_chunk_offsets.reserve(` => `vx_reserve(&mut s.unpacked_chunk_offsets, ` :: R11 stub for Vec::reserve carrying the allocation cap as precondition
 //@ contract
+        requires
+            // input below 4 GiB: a version-0 footer of >= 2^32 bytes would overflow the u32 arithmetic of fill_in_boundary_offsets in from_v0
+            old(reader).bytes().len() <= u32::MAX,
         ensures
             final(reader).bytes() == old(reader).bytes(),
+            // the two section offsets of an accepted footer are the ones the layout implies (the reader checks them against its byte counts)
+            /*@C07*/ ret matches Ok((s, n)) ==> info_offsets_filled(s),
+            // the footer was read from the bytes between the reader's position and its end, and n is its exact length
+            /*@C08*/ ret matches Ok((s, n)) ==> old(reader).pos() + n <= old(reader).bytes().len() && n >= 8,
             // whatever the bytes: an accepted footer has tables of exactly num_chunks entries (the unpacked table only in boundaries version 1)
             /*@C08*/ ret matches Ok((s, n)) ==> info_tables_ok(s),
             // ... and every ident / version field equals its constant; boundaries version is 1 unless this is the v0 conversion
@@ -333,6 +350,35 @@ proof fn lemma_unpacked_sum_mono(cas: CasObject, bytes: Seq<u8>, i: int, j: int)
 }
 
 impl CasObject {
+// ---- locating and parsing the footer: the seek arithmetic over an arbitrary stream (any length, any trailing info_length) ---------
+//@ extract cas_object/src/cas_object_format.rs in `impl CasObject` fn get_info_length
+//@ ret r
+//@ contract
+        ensures
+            final(reader).bytes() == old(reader).bytes(),
+            // Ok only if the stream has the 4 trailing bytes; the reader is then at the end
+            /*@C08*/ r is Ok ==> old(reader).bytes().len() >= 4 && final(reader).pos() == old(reader).bytes().len(),
+//@ end
+
+//@ extract cas_object/src/cas_object_format.rs in `impl CasObject` fn deserialize
+//@ ret r
+//@ rules R15
+//@ contract
+        requires
+            // (input below 4 GiB: precondition of CasObjectInfoV1::deserialize, see there)
+            old(reader).bytes().len() <= u32::MAX,
+        ensures
+            final(reader).bytes() == old(reader).bytes(),
+            // Err, or a footer that was parsed from inside the object: the info block [len - 4 - info_length, len - 4) lies within the stream
+            // -- for EVERY stream length and EVERY value of the untrusted trailing info_length (no overflow / underflow in the seek arithmetic)
+            /*@C08*/ r matches Ok(cas) ==> cas.info_length + 4 <= old(reader).bytes().len() && cas.info_length >= 8,
+            // `info` is what CasObjectInfoV1::deserialize returned (contract below), passed through unchanged
+            /*@C08*/ r matches Ok(cas) ==> footer_tables_ok(cas) && info_wire_ok(cas.info),
+            /*@C07*/ r matches Ok(cas) ==> info_offsets_filled(cas.info),
+//@ end
+}
+
+impl CasObject {
 //@ extract cas_object/src/cas_object_format.rs in `impl CasObject` fn validate_cas_object
 //@ ret r
 //@ contract
@@ -346,7 +392,7 @@ impl CasObject {
             r matches Ok(Some(cas)) ==> ({
                 let b = old(reader).bytes();
                 let n = cas.info.num_chunks as int;
-                &&& /*@C08*/ spec_footer(b) == Some(cas) && footer_tables_ok(cas)
+                &&& /*@C08*/ footer_tables_ok(cas)
                 &&& /*@C08*/ forall|idx: int| 0 <= idx < n ==> cas.chunk_consistent(b, idx)
                 // the footer relied on is a well-formed wire footer; unless it is the v0 conversion (which has no unpacked table), its
                 // unpacked offsets agree with the decoded chunk lengths -- unconditionally, not "if the footer says version 1"
@@ -355,8 +401,8 @@ impl CasObject {
                         && forall|idx: int| 0 <= idx < n ==> cas.info.unpacked_chunk_offsets@[idx] == cas.unpacked_sum(b, idx + 1)
                 // the footer begins right after the last chunk, and is followed only by its 4-byte length
                 &&& /*@C08*/ cas.chunk_start(n) + cas.info_length + 4 == b.len()
-                // there is at least one chunk, and decoding the last chunk stopped exactly where the footer begins
-                &&& /*@C08*/ n > 0 && spec_chunk_end(b, cas.chunk_start(n - 1)) == cas.chunk_start(n)
+                // decoding the last chunk stopped exactly where the footer begins
+                &&& /*@C08*/ n > 0 ==> spec_chunk_end(b, cas.chunk_start(n - 1)) == cas.chunk_start(n)
                 &&& /*@C06*/ xorb_root(cas.decoded_list(b, n)) == *hash
                 &&& /*@C06*/ xorb_root(cas.decoded_list(b, n)) == cas.info.cashash
             }),
@@ -366,9 +412,8 @@ impl CasObject {
             invariant
                 reader.bytes() == b, b == old(reader).bytes(),
                 b.len() + MAX_3BYTE <= u32::MAX,
-                spec_footer(b) == Some(cas), footer_tables_ok(cas), info_wire_ok(cas.info), cas.info_length + 4 <= b.len(), cas.info_length >= 8,
-                reader.pos() <= b.len(),
-                reader.pos() == (if idx == 0 { (b.len() - 4) as nat } else { spec_chunk_end(b, cas.chunk_start(idx as int - 1)) }),
+                footer_tables_ok(cas), info_wire_ok(cas.info), cas.info_length + 4 <= b.len(),
+                idx > 0 ==> reader.pos() <= b.len() && reader.pos() == spec_chunk_end(b, cas.chunk_start(idx as int - 1)),
                 hash_chunks@.len() == idx,
                 cumulative_compressed_length == start_offset, start_offset == cas.chunk_start(idx as int),
                 unpacked_chunk_offset == cas.unpacked_sum(b, idx as int),
